@@ -296,7 +296,22 @@ def tlv_correspondence(ctx, rng, n, runner_ok=True):
     cases, hs, ms = [], [], []
     for i in range(n):
         fid, cls, pre, plen, prep, cw, lw, unit8 = TLV_FMTS[i % len(TLV_FMTS)]
-        if i % 3 == 2:
+        if i % 4 == 3:
+            # a history of additions and removals (remove = first option with that code): the cached size and the bytes written
+            ops, lines = [], ['new ' + cls] + prep
+            pool = [rng.randrange(1, 255) if cw == 1 else rng.randrange(1, 1 << 16) for _ in range(3)]
+            for _ in range(rng.randrange(1, 9)):
+                c = rng.choice(pool)
+                if rng.random() < 0.65 or cls == 'PPPoE':
+                    ln = (8 * rng.randrange(1, 4) - 2) if unit8 else rng.choice([0, 1, 2, 5, 14, 40])
+                    d = bytes(rng.randrange(256) for _ in range(ln))
+                    ops.append('[0 %d x%s]' % (c, d.hex())); lines.append('aopt 0 %d x%s' % (c, d.hex()))
+                else:
+                    ops.append('[1 %d]' % c); lines.append('ropt 0 %d' % c)
+            hs.append(('v%d' % i, lines + ['ser']))
+            ms.append(('v%d' % i, ['hist %d [%s]' % (fid, ' '.join(ops))]))
+            cases.append(('hist', fid, cls, plen, None))
+        elif i % 3 == 2:
             # API-built: options added one by one, then serialized
             opts = []
             for _ in range(rng.randrange(0, 6)):
@@ -334,6 +349,17 @@ def tlv_correspondence(ctx, rng, n, runner_ok=True):
         if not runner_ok:
             continue
         lm = (m.get(sid) or ['?'])[0]
+        if kind == 'hist':
+            sline = [l for l in lh if l.startswith('S ')]
+            if not sline:
+                report(i, 'serialize after an add/remove history fails: %s' % (lh[-1] if lh else '<none>')[:80], lm, lh)
+                continue
+            t = sline[0].split()
+            y = bytes.fromhex(t[2][1:])
+            want = '%d x%s' % (int(t[1]) - plen, y[plen:].hex())
+            if want != lm:
+                report(i, 'after an add/remove history size() - %d = %s and the option area is %s; the model: %s' % (plen, t[1], y[plen:].hex()[:60], lm[:80]), lm, lh)
+            continue
         if kind == 'api':
             sline = [l for l in lh if l.startswith('S ')]
             if not sline:
